@@ -634,6 +634,10 @@ def cache_key_complete(L: Ledger, rule: str, f: Func):
                                     return True
                             if isinstance(st2, ast.Call) and isinstance(st2.func, ast.Attribute) and isinstance(st2.func.value, ast.Name) and st2.func.value.id in aliases and st2.func.attr in ("append", "add", "update", "extend", "insert", "pop", "remove", "sort", "reverse"):
                                 return True
+                            # a method of the entry called as a statement (result discarded) is called for its effect on the
+                            # entry: the table groups items into entries that grow (build.append_scaffold(piece))
+                            if isinstance(st2, ast.Call) and isinstance(st2.func, ast.Attribute) and isinstance(st2.func.value, ast.Name) and st2.func.value.id in aliases and isinstance(getattr(st2, "_parent", None), ast.Expr):
+                                return True
                         return False
 
                     if _other_updates():
